@@ -37,7 +37,7 @@ func fpToBits(f *Term, w int, assume func(*Term)) *Term {
 	if f.Op == "fp:(_ to_fp "+fpDims(w)+")" && len(f.Args) == 1 && f.Args[0].Sort.Kind == SBV {
 		return f.Args[0]
 	}
-	b := Fresh("fpbits", BV(w))
+	b := App(fmt.Sprintf("fpbits%d", w), BV(w), f)
 	assume(Eq(toFP(b), f))
 	return b
 }
